@@ -87,7 +87,7 @@ PROPS.update({
         "module": "SimilarVerif.Props.C07",
         "suites": ["deadline", "text"],
         "rule": "deadline: all pairs up to length 4 over 2 (thorough 3) symbols + random pairs x 3 algorithms x every expiry point k = 0..#checks+1 (sampled beyond 40) through algorithms::diff_deadline and capture_diff_deadline under the virtual clock; validators: script validity, finish once, comparisons after expiry <= 2x the hand-derived bound, never-expiring = none; text: TextDiffConfig deadline/timeout reach the algorithm; non-trivial = the clock actually expired",
-        "theorem_status": "validity and finish-once for EVERY expiry point: LCS full (incl. totality), Myers full incl. totality, Patience whenever it returns; never-expiring deadline = no deadline (all algorithms, recording hook and capture pipeline): full; LCS no comparison after expiry: full; Myers <= 3*min(N,M) comparisons after the first expired probe: full; Patience entered with an expired deadline: <= 5*min(N,M)+4 comparisons (full); Patience expiring at a later probe: bound not a theorem (partial), measured at every expiry point",
+        "theorem_status": "validity and finish-once for EVERY expiry point: LCS full (incl. totality), Myers full incl. totality, Patience full incl. totality (C01.patience_total_valid); never-expiring deadline = no deadline (all algorithms, recording hook and capture pipeline): full; LCS no comparison after expiry: full; Myers <= 3*min(N,M) comparisons after the first expired probe: full; Patience entered with an expired deadline: <= 5*min(N,M)+4 comparisons from entry (full); Patience expiring at ANY probe - of the outer run, of a gap run inside a hook call, or of the tail run: <= 7*min(N,M) comparisons after the first probe that answered 'exceeded' (patience_post_expiry_bound / _kth_probe, full, via a ghost-instrumented run proved equal to the model run)",
         "level_text": "Lean theorems quantify over all virtual-clock states, i.e. all expiry points; the virtual clock is the cfg(similar_verif) hook in /repo, so expiry at the k-th check is an input of the correspondence as well.",
         "level_note": "real time cannot be exhibited by the model: Instant::now() > deadline is replaced by the virtual clock under the guard",
     },
